@@ -8,7 +8,7 @@ from . import treegen, jsonref
 T_FALSE, T_TRUE, T_NULL, T_NUMBER, T_STRING, T_ARRAY, T_OBJECT, T_RAW = 1, 2, 4, 8, 16, 32, 64, 128
 KIND_TYPE = {'f': T_FALSE, 't': T_TRUE, 'z': T_NULL, 'n': T_NUMBER, 's': T_STRING, 'a': T_ARRAY, 'o': T_OBJECT, 'w': T_RAW}
 
-KEYS = [b'a', b'A', b'b', b'B', b'ab', b'aB', b'', b'k\xc3\xa9', b'K\xc3\xa9']
+KEYS = [b'a', b'A', b'b', b'B', b'ab', b'aB', b'', b'k\xc3\xa9', b'K\xc3\xa9', b'k[', b'k{', b'K@', b'k`']
 
 
 def fold(b):
